@@ -21,8 +21,12 @@ package docfilter
 //@                 (!typeis(doc.Elements[j], *webdoc.Text) && inRun(doc.Elements, j))))
 //@   loop 0 invariant forall(j, ITER <= j && j < len(doc.Elements), doc.Elements[j].IsContent() == old(doc.Elements[j].IsContent()))
 
+// C02/C08: the lead-image filter keeps the element list as it is (members and order); it only sets a content flag.
+// (Which flag, and that no other flag changes, is not proved: findLeadImage sets it through the Element interface on
+// an interior BaseElement, and the heap model cannot separate interior objects of different element types.)
 //@ func (*LeadImageFinder).Process(doc)
 //@   requires doc != nil
+//@   ensures [C02,C08] #elements-unchanged len(doc.Elements) == old(len(doc.Elements)) && forall(i, 0 <= i && i < len(doc.Elements), doc.Elements[i] == old(doc.Elements[i]))
 //@   requires [C08] #after-relevant-elements phase(doc) == 2
 //@   ghostset phase(doc) = 3
 //@   ensures [C08] phase(doc) == 3
